@@ -265,35 +265,60 @@ def log(msg):
     print(msg, file=sys.stderr, flush=True)
 
 
-def build(cfg):
+NOHOOKS = {}  # cfg -> True once the hooks turned out not to compile against the tree under test
+
+
+def build_cmd(cfg, nohooks):
     c = CONFIGS[cfg]
-    if c.get("miri"):
-        return None  # built and run in one step by `cargo miri run`
     cmd = ["cargo"]
     if c.get("toolchain"):
         cmd.append(c["toolchain"])
     cmd += ["build", "-p", "coapmc", "--offline"] + c["args"]
+    if nohooks:
+        cmd += ["--features", "nohooks"]
+    if "--target-dir" not in cmd:
+        cmd += ["--target-dir", "target"]
+    i = cmd.index("--target-dir")
+    cmd[i + 1] = cmd[i + 1] + (MUT if REPO_OVERRIDE else "") + ("-nohooks" if nohooks else "")
     if REPO_OVERRIDE:
         cmd += ["--config", f'paths=["{REPO_OVERRIDE}"]']
-        if "--target-dir" in cmd:
-            i = cmd.index("--target-dir")
-            cmd[i + 1] = cmd[i + 1] + MUT
-        else:
-            cmd += ["--target-dir", "target" + MUT]
     env = dict(ENV)
     env.update(c.get("env", {}))
-    t0 = time.time()
-    r = subprocess.run(cmd, cwd=MC, env=env, stdout=subprocess.PIPE, stderr=subprocess.STDOUT, text=True)
-    if r.returncode != 0:
-        log(r.stdout[-6000:])
-        log(f"MACHINERY: build of configuration {cfg} failed")
-        sys.exit(2)
-    log(f"[build {cfg}] ok in {time.time() - t0:.1f}s")
+    if nohooks:
+        # an explicit RUSTFLAGS replaces the --cfg coap_lite_verif of mc/.cargo/config.toml
+        env["RUSTFLAGS"] = (env.get("RUSTFLAGS", "").replace("--cfg coap_lite_verif", "") + " --cfg coap_lite_verif_hooks_off").strip()
     binp = c["bin"]
-    if REPO_OVERRIDE:
-        first, rest = binp.split("/", 1)
-        binp = first + MUT + "/" + rest
-    return os.path.join(MC, binp)
+    first, rest = binp.split("/", 1)
+    binp = first + (MUT if REPO_OVERRIDE else "") + ("-nohooks" if nohooks else "") + "/" + rest
+    return cmd, env, os.path.join(MC, binp)
+
+
+def build(cfg):
+    c = CONFIGS[cfg]
+    if c.get("miri"):
+        return None  # built and run in one step by `cargo miri run`
+    t0 = time.time()
+    cmd, env, binp = build_cmd(cfg, False)
+    if os.environ.get("VERIF_FORCE_NOHOOKS"):  # self-test of the hook-less form on a tree where the hooks do compile
+        r = subprocess.CompletedProcess(cmd, 1, "(VERIF_FORCE_NOHOOKS set)", None)
+    else:
+        r = subprocess.run(cmd, cwd=MC, env=env, stdout=subprocess.PIPE, stderr=subprocess.STDOUT, text=True)
+    if r.returncode != 0:
+        # Do the hooks (cfg coap_lite_verif) still compile against this tree? If the crate builds without them, run
+        # the checks in their hook-less form rather than not at all (DESIGN.md 6.2).
+        cmd2, env2, binp2 = build_cmd(cfg, True)
+        r2 = subprocess.run(cmd2, cwd=MC, env=env2, stdout=subprocess.PIPE, stderr=subprocess.STDOUT, text=True)
+        if r2.returncode != 0:
+            log(r.stdout[-6000:])
+            log(f"MACHINERY: build of configuration {cfg} failed")
+            sys.exit(2)
+        log(r.stdout[-1500:])
+        log(f"NOTE: the verification hooks do not compile against this tree; configuration {cfg} was built WITHOUT hooks "
+            f"(degraded checks, see the evidence file) in {time.time() - t0:.1f}s")
+        NOHOOKS[cfg] = True
+        return binp2
+    log(f"[build {cfg}] ok in {time.time() - t0:.1f}s")
+    return binp
 
 
 def known_findings():
@@ -318,7 +343,11 @@ def run_config(pid, cfg, tier, seed, extra=None):
         cmd += ["--known", ",".join(ksigs)]
     env = dict(ENV)
     if CONFIGS[cfg].get("miri"):
-        cmd = ["cargo", "+nightly", "miri", "run", "-q", "-p", "coapmc", "--offline", "--target-dir", "target-miri" + MUT]
+        cmd = ["cargo", "+nightly", "miri", "run", "-q", "-p", "coapmc", "--offline", "--target-dir",
+               "target-miri" + MUT + ("-nohooks" if NOHOOKS else "")]
+        if NOHOOKS:  # an earlier configuration found that the hooks do not compile against this tree
+            cmd += ["--features", "nohooks"]
+            env["RUSTFLAGS"] = "--cfg coap_lite_verif_hooks_off"
         if REPO_OVERRIDE:
             cmd += ["--config", f'paths=["{REPO_OVERRIDE}"]']
         cmd += ["--", pid, "--tier", tier, "--seed", str(seed), "--config", cfg, "--out", part, "--threads", "1"]
@@ -449,9 +478,17 @@ def cross_engine_guard(families, notes):
         j["real_code_projected_states"] = projected
         j["family"] = f["name"]
         out.append(j)
-        if not (j["bfs_unique_states"] == j["dfs_unique_states"] == projected and j["properties_hold"]):
-            log(f"MACHINERY: cross-engine state count mismatch for {f['name']}: {j}")
+        if not (j["bfs_unique_states"] == j["dfs_unique_states"] and j["properties_hold"]):
+            # the two stateright searches of the *model* disagree with each other: the machinery itself is broken
+            log(f"MACHINERY: stateright BFS and DFS disagree for {f['name']}: {j}")
             sys.exit(2)
+        j["agreement"] = j["bfs_unique_states"] == projected
+        if not j["agreement"]:
+            # the real-code search saw a different number of canonical states than the model has: either violations cut
+            # the exploration (they are reported below) or the implementation keeps hidden state the model does not
+            # distinguish (e.g. a stale pending id after an acknowledgement), which no property forbids. Recorded in
+            # the evidence, never a verdict and never a reason to stop.
+            log(f"NOTE: cross-engine state counts differ for {f['name']}: real code {projected}, model {j['bfs_unique_states']}")
     return out
 
 
